@@ -121,6 +121,14 @@ def variant_case(case, ctx):
             return
         raise Violation(kind + "-invalid-list-accepted", "variants %r on L=%d A=%d" % (case["vars"], L, A))
     before, after = exp
+    if case.get("pre_rejected"):
+        # an earlier call on a batch of the same shape was rejected part-way (valid rows first, then an out-of-range one)
+        bad = [list(v) for v in case["vars"][:2]] + [[0, L + 1] + ([] if kind == "deletion" else [0])]
+        try:
+            fn(None, X.clone(), torch.tensor(bad, dtype=torch.int64).reshape(-1, ncol), func=_echo, **kw)
+        except Exception:  # noqa: BLE001
+            pass
+        ctx.label("after_rejected_call_of_same_shape")
     if use_predict:
         model = _Coder()
         yb, ya = sut(fn, model, X, V, args=args, func=predict, batch_size=case.get("batch_size", 3), device="cpu", **kw)
@@ -206,6 +214,7 @@ def strategy(draw):
     elif bad == 1 and kind != "deletion":
         vs = list(vs) + [[0, draw(st.integers(0, L - 1)), A + draw(st.integers(0, 1))]]
     case["vars"] = [list(v) for v in vs]
+    case["pre_rejected"] = draw(st.integers(0, 3)) == 0
     return case
 
 
@@ -219,7 +228,8 @@ def del_enum(tier):
         s1 = "".join(alpha[(p + 3) % A] for p in range(L))
         for left in (False, True):
             for d0 in subsets:
-                cases.append({"A": A, "seqs": [s0], "kind": "deletion", "left": left, "vars": [[0, p] for p in d0], "func": "echo"})
+                cases.append({"A": A, "seqs": [s0], "kind": "deletion", "left": left, "vars": [[0, p] for p in d0], "func": "echo",
+                              "pre_rejected": len(cases) % 3 == 0})
             if L <= (6 if tier == "quick" else 7):
                 for d0 in subsets:
                     for d1 in subsets:
